@@ -16,6 +16,7 @@ import YashModel.Exec.Escape
 import YashModel.Exec.Refine
 import YashModel.Exec.FuelMono
 import YashModel.Exec.SearchCompose
+import YashModel.Exec.BuiltinLemmas
 namespace YashModel.Exec
 
 /-! ### ★ stack_balanced: every push has its pop on every path -/
@@ -868,5 +869,258 @@ example :
 example : loops [.builtin true, .condition, .loop, .loop, .subshell, .loop] = 2 ∧
     (execCmd 3 { stack := [.condition, .loop, .loop, .subshell, .loop] } (.brk 5)).2 = .break_ (.break_ 1) := by
   decide
+
+/-! ### wave 3: the control-flow built-ins behind `brk` / `cont` / `ret` / `exit` (Exec/Builtins.lean) -/
+
+section Wave3
+open Builtins
+
+/-- `Stack::loop_count` as written in stack.rs (take_while / filter / take / count) is the recursion the executor
+    model uses, and both are `min max (visible loops)` -/
+theorem loop_count_is_chain (stack : List Frame) (max : Nat) :
+    loopCountChain stack max = loopCount stack max ∧ loopCountChain stack max = min max (loops stack) :=
+  ⟨loopCountChain_eq stack max, loopCountChain_eq_min stack max⟩
+
+/-- composition: the executor model's `break n` / `continue n` is the transcribed built-in (`parse_arguments`,
+    `str::parse::<NonZeroUsize>`, `semantics::run`, the error reports) called by `execute_builtin` with the
+    operand text `w`, for every text Rust's parser reads as `n`; without an operand it is `break 1` -/
+theorem break_builtin_is_model (fuel : Nat) (s : St) (isBreak p : Bool) (w : Str) (n : Nat)
+    (h : parseNonZeroUsize w = .ok n) :
+    runBuiltin s true (fun st => breakMain isBreak p st [w]) =
+      execCmd (fuel+1) s (if isBreak then .brk n else .cont n) ∧
+    runBuiltin s true (fun st => breakMain isBreak p st []) =
+      execCmd (fuel+1) s (if isBreak then .brk 1 else .cont 1) := by
+  constructor
+  · simp only [runBuiltin, breakMain_of_parse isBreak p s.stack [w] n (breakParse_operand p w n h)]
+    cases isBreak <;> simp [execCmd]
+  · simp only [runBuiltin, breakMain_of_parse isBreak p s.stack [] 1 (breakParse_nil p)]
+    cases isBreak <;> simp [execCmd]
+
+example : parseNonZeroUsize ['+', '2'] = .ok 2 ∧ parseNonZeroUsize ['0', '0', '7'] = .ok 7 := ⟨rfl, rfl⟩
+
+/-- composition: the executor model's `return [n]` / `exit [n]` is the transcribed built-in called by
+    `execute_builtin`, for every operand text `w` that `str::parse::<i32>` reads as a non-negative `v` (a text
+    beginning with `-` is an option to `parse_arguments`, never an operand) -/
+theorem return_exit_builtin_is_model (fuel : Nat) (s : St) (p : Bool) (w : Str) (v : Nat)
+    (h : parseI32 w = .ok (Int.ofNat v)) (hw : w.head? ≠ some '-') :
+    runBuiltin s true (fun st => returnMain p st s.status [w]) = execCmd (fuel+1) s (.ret (some v)) ∧
+    runBuiltin s true (fun st => returnMain p st s.status []) = execCmd (fuel+1) s (.ret none) ∧
+    runBuiltin s true (fun st => exitMain p st s.status [w]) = execCmd (fuel+1) s (.exit (some v)) ∧
+    runBuiltin s true (fun st => exitMain p st s.status []) = execCmd (fuel+1) s (.exit none) := by
+  refine ⟨?_, ?_, ?_, ?_⟩
+  · simp [runBuiltin, returnMain, parseArguments_operand _ _ w hw, statusOperand, h, execCmd]
+  · simp [runBuiltin, returnMain, parseArguments_nil, statusOperand, execCmd]
+  · simp [runBuiltin, exitMain, parseArguments_operand _ _ w hw, statusOperand, h, execCmd]
+  · simp [runBuiltin, exitMain, parseArguments_nil, statusOperand, execCmd]
+
+example : parseI32 ['+', '0', '7'] = .ok (Int.ofNat 7) ∧ parseI32 ['2', '5', '6'] = .ok (Int.ofNat 256) := ⟨rfl, rfl⟩
+
+/-- every call of `break` / `continue`, whatever the arguments and the frame stack: either the operands parse to
+    some `n ≥ 1`, a loop is visible, and the result is status 0 with exactly `min n (visible loops) - 1` further
+    levels — or nothing is left: a non-zero status (2 for a syntax error, 1 outside a loop) and the shell is
+    interrupted iff the innermost built-in frame is that of a special built-in -/
+theorem break_main_cases (isBreak p : Bool) (stack : List Frame) (args : List Str) :
+    (∃ n, breakParse p args = .ok n ∧ 1 ≤ n ∧ 0 < loops stack ∧
+      breakMain isBreak p stack args =
+        ⟨0, .break_ (if isBreak then .break_ (min n (loops stack) - 1) else .continue_ (min n (loops stack) - 1))⟩) ∨
+    ((breakMain isBreak p stack args).exitStatus ≠ 0 ∧
+      (breakMain isBreak p stack args).divert =
+        if currentBuiltin stack = some true then .break_ (.interrupt none) else .continue_) := by
+  have hrd : reportDivert stack = if currentBuiltin stack = some true then .break_ (.interrupt none) else .continue_ := by
+    unfold reportDivert
+    cases currentBuiltin stack with
+    | none => simp
+    | some b => cases b <;> simp
+  cases hp : breakParse p args with
+  | error e => right; simp [breakMain, hp, reportError, hrd, Generated.ExecTables.ERROR]
+  | ok n =>
+    have hn : 1 ≤ n := by
+      unfold breakParse at hp
+      split at hp
+      · simp at hp
+      · split at hp
+        · simp at hp
+        · split at hp
+          · simp at hp; omega
+          · split at hp
+            · rename_i hq
+              simp at hp; subst hp
+              exact (parseNonZeroUsize_ok _ _ hq).2
+            · simp at hp
+    by_cases hl : loops stack = 0
+    · right
+      simp [breakMain, hp, breakRun, loopCountChain_eq_min, hl, reportSimpleFailure, hrd, Generated.ExecTables.FAILURE]
+    · left
+      refine ⟨n, rfl, hn, by omega, ?_⟩
+      have : ¬ min n (loops stack) = 0 := by omega
+      simp [breakMain, hp, breakRun, loopCountChain_eq_min, this, Generated.ExecTables.SUCCESS]
+
+/-- every call of `return` / `exit` (non-interactive shell), whatever the arguments: a syntax error (status 2, the
+    shell interrupted iff the innermost built-in frame is special), or the divert of that built-in and no other —
+    `Return` resp. `Exit` carrying the operand, with `$?` left as it was; `return -n` does not divert and yields
+    the operand (or `$?`) as its status -/
+theorem return_exit_main_cases (p : Bool) (stack : List Frame) (status : Nat) (args : List Str) :
+    (((returnMain p stack status args).exitStatus = 2 ∧
+        (returnMain p stack status args).divert =
+          if currentBuiltin stack = some true then .break_ (.interrupt none) else .continue_) ∨
+      (∃ es, returnMain p stack status args = ⟨status, .break_ (.return_ es)⟩) ∨
+      (∃ es : Option Nat, returnMain p stack status args = ⟨es.getD status, .continue_⟩)) ∧
+    (((exitMain p stack status args).exitStatus = 2 ∧
+        (exitMain p stack status args).divert =
+          if currentBuiltin stack = some true then .break_ (.interrupt none) else .continue_) ∨
+      (∃ es, exitMain p stack status args = ⟨status, .break_ (.exit es)⟩)) := by
+  have hrd : reportDivert stack = if currentBuiltin stack = some true then .break_ (.interrupt none) else .continue_ := by
+    unfold reportDivert
+    cases currentBuiltin stack with
+    | none => simp
+    | some b => cases b <;> simp
+  constructor
+  · unfold returnMain
+    split
+    · left; simp [reportError, hrd, Generated.ExecTables.ERROR]
+    · split
+      · left; simp [reportError, hrd, Generated.ExecTables.ERROR]
+      · rename_i es _
+        simp only
+        split
+        · right; right; exact ⟨es, rfl⟩
+        · right; left; exact ⟨es, rfl⟩
+  · unfold exitMain
+    split
+    · left; simp [reportError, hrd, Generated.ExecTables.ERROR]
+    · split
+      · left; simp [reportError, hrd, Generated.ExecTables.ERROR]
+      · rename_i es _
+        right; exact ⟨es, rfl⟩
+
+/-- not vacuous, every branch: `return -n 5`, `return -- 3`, `return -5` (an unknown option), `return 1 2`,
+    `exit -f 4`, `exit 2147483648` (overflow) in a special / a regular built-in frame -/
+example :
+    returnMain false [.builtin true] 9 [['-', 'n'], ['5']] = ⟨5, .continue_⟩ ∧
+    returnMain false [.builtin true] 9 [['-', '-'], ['3']] = ⟨9, .break_ (.return_ (some 3))⟩ ∧
+    returnMain false [.builtin true] 9 [['-', '5']] = ⟨2, .break_ (.interrupt none)⟩ ∧
+    returnMain false [.builtin false, .builtin true] 9 [['1'], ['2']] = ⟨2, .continue_⟩ ∧
+    returnMain true [.builtin true] 9 [['-', 'n']] = ⟨2, .break_ (.interrupt none)⟩ ∧
+    exitMain false [.builtin true] 9 [['-', 'f'], ['4']] = ⟨9, .break_ (.exit (some 4))⟩ ∧
+    exitMain false [.condition, .builtin true] 9 [['2','1','4','7','4','8','3','6','4','8']] = ⟨2, .break_ (.interrupt none)⟩ := by
+  refine ⟨?_, ?_, ?_, ?_, ?_, ?_, ?_⟩ <;> decide
+
+/-- what `str::parse` makes of an operand written without a sign: it is read as `n` iff it consists of ASCII
+    digits only, denotes `n` in decimal, and `n` fits the type — `1 ≤ n ≤ usize::MAX` for `break`/`continue`
+    (`NonZeroUsize`), `n ≤ i32::MAX` for `return`/`exit`; both bounds inclusive -/
+theorem operand_is_decimal_value (ds : List Char) (n : Nat) (hne : ds ≠ [])
+    (hp : ds.head? ≠ some '+') (hm : ds.head? ≠ some '-') :
+    (parseNonZeroUsize ds = .ok n ↔
+      (∀ c ∈ ds, (digitVal c).isSome = true) ∧ n = decimalValue ds 0 ∧ 1 ≤ n ∧ n ≤ 2 ^ 64 - 1) ∧
+    (parseI32 ds = .ok (Int.ofNat n) ↔
+      (∀ c ∈ ds, (digitVal c).isSome = true) ∧ n = decimalValue ds 0 ∧ n ≤ 2 ^ 31 - 1) := by
+  constructor
+  · have key := parseDigits_ok_iff usizeMax .posOverflow ds 0 n (Nat.zero_le _)
+    constructor
+    · intro h
+      obtain ⟨h1, h2⟩ := parseNonZeroUsize_ok ds n h
+      rw [parseUsize_unsigned ds hne hp hm] at h1
+      obtain ⟨a, b, c⟩ := key.1 h1
+      exact ⟨a, b, h2, c⟩
+    · intro ⟨a, b, h2, c⟩
+      have h1 := key.2 ⟨a, b, c⟩
+      unfold parseNonZeroUsize
+      rw [parseUsize_unsigned ds hne hp hm, h1]
+      cases n with
+      | zero => omega
+      | succ k => rfl
+  · rw [parseI32_unsigned ds hne hp hm]
+    have key := parseDigits_ok_iff (2 ^ 31 - 1) .posOverflow ds 0 n (Nat.zero_le _)
+    rw [← key]
+    cases parseDigits (2 ^ 31 - 1) .posOverflow ds 0 with
+    | error e => simp [Except.map]
+    | ok v => simp [Except.map]; exact Int.ofNat_inj
+
+/-- not vacuous, at the boundaries: `usize::MAX` and `i32::MAX` are accepted, one more is not, `0` is no count -/
+example :
+    parseNonZeroUsize "18446744073709551615".toList = .ok (2 ^ 64 - 1) ∧
+    parseNonZeroUsize "18446744073709551616".toList = .error .posOverflow ∧
+    parseNonZeroUsize ['0'] = .error .zero ∧
+    parseI32 "2147483647".toList = .ok (2 ^ 31 - 1) ∧ parseI32 "2147483648".toList = .error .posOverflow ∧
+    parseI32 "-2147483648".toList = .ok (-(2 ^ 31)) ∧ parseI32 "-2147483649".toList = .error .negOverflow ∧
+    parseI32 "99x".toList = .error .invalidDigit ∧ parseI32 "99999999999x".toList = .error .posOverflow := by
+  refine ⟨?_, ?_, ?_, ?_, ?_, ?_, ?_, ?_, ?_⟩ <;> rfl
+
+/-! ### wave 3: `Ord for Divert` (the merge of a command's divert with a trap action's, command.rs) -/
+
+/-- the derived `Ord for Divert` is a linear order … -/
+theorem divert_le_linear_order (a b c : Divert) :
+    a.le a = true ∧ (a.le b = true ∨ b.le a = true) ∧ (a.le b = true → b.le a = true → a = b) ∧
+    (a.le b = true → b.le c = true → a.le c = true) := by
+  refine ⟨?_, ?_, ?_, ?_⟩
+  · cases a <;> simp [Divert.le, Divert.rank, optLe_refl]
+  · cases a <;> cases b <;> simp [Divert.le, Divert.rank, optLe_total] <;> omega
+  · cases a <;> cases b <;> simp [Divert.le, Divert.rank] <;>
+      first | omega | (intro h1 h2; exact optLe_antisymm _ _ h1 h2)
+  · cases a <;> cases b <;> simp [Divert.le, Divert.rank] <;> cases c <;> simp [Divert.le, Divert.rank] <;>
+      first | omega | (intro h1 h2; exact optLe_trans _ _ _ h1 h2)
+
+/-- … and `Ord::max` on it picks one of its arguments, an upper bound of both, the same whichever comes first;
+    the later variant (`Continue < Break < Return < Interrupt < Exit < Abort`) wins whatever the payloads -/
+theorem divert_max_props (a b : Divert) :
+    (a.max b = a ∨ a.max b = b) ∧ a.le (a.max b) = true ∧ b.le (a.max b) = true ∧ a.max b = b.max a ∧
+    (a.rank < b.rank → a.max b = b) := by
+  obtain ⟨hr, ht, ha, _⟩ := divert_le_linear_order a b a
+  obtain ⟨hrb, _, _, _⟩ := divert_le_linear_order b a b
+  refine ⟨?_, ?_, ?_, ?_, ?_⟩
+  · unfold Divert.max; split <;> simp
+  · unfold Divert.max; split <;> simp_all
+  · unfold Divert.max; split
+    · exact hrb
+    · rcases ht with h | h
+      · simp_all
+      · exact h
+  · unfold Divert.max
+    by_cases h1 : a.le b = true <;> by_cases h2 : b.le a = true
+    · simp [h1, h2]; exact (ha h1 h2).symm
+    · simp [h1, h2]
+    · simp [h1, h2]
+    · rcases ht with h | h <;> simp_all
+  · intro h
+    have : a.le b = true := by simp [Divert.le, h]
+    simp [Divert.max, this]
+
+/-- not vacuous: `Exit(None)` beats `Return(Some 255)`; among equals the payload decides, `None` first -/
+example : (Divert.return_ (some 255)).max (.exit none) = .exit none ∧
+    (Divert.interrupt none).max (.interrupt (some 0)) = .interrupt (some 0) ∧
+    (Divert.break_ 2).max (.break_ 1) = .break_ 2 := by decide
+
+/-! ### wave 3: more tables of the code -/
+
+/-- the variant's name in yash-env/src/semantics.rs -/
+def Divert.rustName : Divert → String
+  | .continue_ _ => "Continue" | .break_ _ => "Break" | .return_ _ => "Return"
+  | .interrupt _ => "Interrupt" | .exit _ => "Exit" | .abort _ => "Abort"
+
+/-- `Divert.rank` (the severity `Divert.le` / `Divert.max` compare first) is the position of the variant in
+    `enum Divert` as it stands in the code, whose `Ord` is derived -/
+theorem divert_rank_table (d : Divert) :
+    Generated.ExecTables.divertVariants[d.rank]? = some d.rustName ∧
+    Generated.ExecTables.divertVariants.length = 6 := by
+  cases d <;> simp only [Divert.rank, Divert.rustName] <;> decide
+
+/-- the statuses and the divert of the error reports are those of common/report.rs as it stands: `report_error`
+    (and `syntax_error` through it) passes `ERROR`, `report_simple_failure` `FAILURE`, and
+    `prepare_report_message_and_divert` interrupts exactly for a special built-in -/
+theorem report_tables (stack : List Frame) :
+    (Generated.ExecTables.reportStatus.lookup "report_error").bind (Generated.ExecTables.exitStatusByName.lookup ·) =
+      some (reportError stack).exitStatus ∧
+    (Generated.ExecTables.reportStatus.lookup "report_simple_failure").bind
+      (Generated.ExecTables.exitStatusByName.lookup ·) = some (reportSimpleFailure stack).exitStatus ∧
+    Generated.ExecTables.reportDivert = ("Break(Interrupt(None))", "Continue(())") ∧
+    (reportError stack).divert = (if currentBuiltin stack = some true then .break_ (.interrupt none) else .continue_) ∧
+    (reportSimpleFailure stack).divert = (reportError stack).divert := by
+  refine ⟨by simp only [reportError]; decide, by simp only [reportSimpleFailure]; decide, by decide, ?_, rfl⟩
+  simp only [reportError, reportDivert]
+  cases currentBuiltin stack with
+  | none => simp
+  | some b => cases b <;> simp
+
+end Wave3
 
 end YashModel.Exec
